@@ -172,6 +172,9 @@ def ops_for(tier, nheld):
         for u in U:
             ops.append(("reml", ("p", p), ("u", u)))
     ops.append(("reml", ("u", U[0]), ("u", U[0])))  # the same block named twice
+    for u in U[:4]:
+        for v in U[:4]:
+            ops.append(("addgen", u, v))  # add(generator yielding u, v and then raising)
     for old in [("u", u) for u in U] + [("p", p) for p in range(nheld)]:
         for new in U:
             for fail in (True, False):
@@ -180,7 +183,7 @@ def ops_for(tier, nheld):
 
 
 def grows(op):
-    return {"add": 1, "addl": 2}.get(op[0], 0)
+    return {"add": 1, "addl": 2, "addgen": 2}.get(op[0], 0)
 
 
 class World:
@@ -219,6 +222,37 @@ class World:
                 real = lambda: lib.add(list(bl), fail_on_duplicate_key=op[3])
                 ref = lambda: model.add(bl, op[3])
                 flag = op[3]
+            elif kind == "addgen":
+                a, b = self.uni[op[1]], self.uni[op[2]]
+
+                def gen():
+                    yield a
+                    yield b
+                    raise KeyError("the caller's iterable failed")
+
+                # not specified which blocks are in afterwards; specified: the library is a consistent library.
+                try:
+                    lib.add(gen())
+                except KeyError:
+                    pass
+                except Exception as e:
+                    acc.violation(
+                        {"oracle": "only_valueerror", "op": "add(iterable)", "exception": type(e).__name__},
+                        {"case": {"history": hist, "op": op, "tier_universe": list(self.uni)}, "observed": repr(e), "expected": "the iterable's own exception"},
+                        size=len(hist),
+                    )
+                    return False
+                # bring the model in step with what the implementation kept (a prefix of a, b), then judge all views
+                kept = len(lib.blocks) - len(model.slots)
+                if kept not in (0, 1, 2):
+                    kept = -1
+                else:
+                    model.add([a, b][:kept], False)
+                case = {"history": hist, "op": op, "tier_universe": list(self.uni)}
+                if kept < 0:
+                    acc.violation({"oracle": "blocks_match_model", "op": "add"}, {"case": case, "observed": _show(lib), "expected": "a prefix of the iterable's blocks appended"}, size=len(hist))
+                    return False
+                return self.judge(acc, case, "add")
             elif kind == "rem":
                 arg, tgt = self.resolve(op[1])
                 if arg is None:
@@ -452,7 +486,7 @@ def run_shard(shard, tier, acc):
             if n + grows(op) > L:
                 continue
             # the pair-list operations are covered by the closure; the guard keeps single-block ops (depth matters here)
-            if op[0] in ("addl", "reml"):
+            if op[0] in ("addl", "reml", "addgen"):
                 continue
             w = build(tier, hist)
             st = w.apply(op, acc, hist)
